@@ -953,9 +953,30 @@ def main(ctx):
             idarg = as_form(ids, "strided")
         elif what == "both>i8":
             idarg, revarg = ids.astype(">i8"), rev.astype(">i8")
-        st, got = in_child(lambda: np.asarray(htm.HTM(depth).bincount(
-            rmin, rmax, nbin, ra1, dec1, ra, dec, htmid2=idarg, htmrev2=revarg, minid=mn, maxid=mx,
-            getbins=False)).tolist())
+        mnarg, mxarg = mn, mx
+        if what.startswith("minmax-"):
+            # the id limits as the caller has them: numpy scalars of the id column's type (.min()/.max()), floats
+            t = what[7:]
+            conv = {"i4": np.int32, "u4": np.uint32, "i8": np.int64, "u8": np.uint64, "f8": np.float64, "pyfloat": float,
+                    "0d-i4": lambda v: np.array(v, dtype="i4"), "ids.min()": None}[t]
+            if conv is None:
+                idarg = ids.astype("i4")
+                mnarg, mxarg = idarg.min(), idarg.max()
+            else:
+                mnarg, mxarg = conv(mn), conv(mx)
+        elif what == "python-histogram":
+            pass
+        pyh = what == "python-histogram"
+
+        def run():
+            if pyh:
+                from esutil.stat import util as _su
+                _su.have_chist = False           # the pure-Python histogram engine makes the reverse indices
+                return np.asarray(htm.HTM(depth).bincount(rmin, rmax, nbin, ra1, dec1, ra, dec, getbins=False)).tolist()
+            return np.asarray(htm.HTM(depth).bincount(
+                rmin, rmax, nbin, ra1, dec1, ra, dec, htmid2=idarg, htmrev2=revarg, minid=mnarg, maxid=mxarg,
+                getbins=False)).tolist()
+        st, got = in_child(run)
         if st != "ok":
             return rec.fail(case, "bincount with supplied %s: %s" % (what, got))
         if not np.array_equal(got, want):
@@ -964,7 +985,9 @@ def main(ctx):
         rec.ok(case, outcome="supplied:%s" % what, nontrivial=True, calls=3)
 
     runits = [(d, BINS[1], w, seed) for d in (3, 6)
-              for w in ("rev>i8", "rev-i4", "rev-f8", "rev-strided", "rev-list", "ids>i8", "ids-strided", "both>i8")]
+              for w in ("rev>i8", "rev-i4", "rev-f8", "rev-strided", "rev-list", "ids>i8", "ids-strided", "both>i8",
+                        "minmax-i4", "minmax-u4", "minmax-i8", "minmax-u8", "minmax-f8", "minmax-pyfloat", "minmax-0d-i4", "minmax-ids.min()",
+                        "python-histogram")]
     ctx.lattice("bincount-supplied-forms", runits, one_revform, envstrict=True,
                 bounds=dict(forms=sorted(set(u[2] for u in runits)), depths=[3, 6]))
 
